@@ -14,7 +14,8 @@ using enable_if_some_float_t = std::enable_if<std::is_floating_point<T1>::value 
 
 template<typename T1, typename T2, typename T3, class R = typename enable_if_some_float_t<T1, T2, T3>::type>
 arr_real arange(T1 start, T2 stop, T3 step = 1) {
-    const auto n = (int)(std::round((stop - start) / double(step)));
+    const auto cnt = (int)(std::round((stop - start) / double(step)));
+    const auto n = (cnt > 0) ? cnt : 0;   //empty for a reversed range
     arr_real r(n);
     for (int i = 0; i < n; ++i) {
         r[i] = start + (i * step);
@@ -27,7 +28,15 @@ inline arr_real arange(real_t stop) {
 }
 
 inline arr_real arange(int start, int stop, int step = 1) {
-    const auto n = (int)std::round((stop - start) / double(step));
+    //number of start + k*step (k >= 0) strictly before stop: ceil((stop - start) / step), empty if negative
+    const long long d = (long long)stop - start;
+    long long cnt = 0;
+    if ((step > 0) && (d > 0)) {
+        cnt = (d + step - 1) / step;
+    } else if ((step < 0) && (d < 0)) {
+        cnt = (-d + (-(long long)step) - 1) / (-(long long)step);
+    }
+    const auto n = (int)cnt;
     arr_real r(n);
     for (int i = 0; i < n; ++i) {
         r[i] = start;
